@@ -1366,7 +1366,7 @@ class Element(Mapping[str, Attribute]):
                 [ind] = binformat.struct_read(stringdb_ind, file)
                 el_type = stringdb[ind]
             else:
-                el_type = binformat.read_nullstr(file)
+                el_type = binformat.read_nullstr(file, encoding=encoding)
             if version >= 4:
                 assert stringdb is not None
                 [ind] = binformat.struct_read(stringdb_ind, file)
